@@ -632,7 +632,7 @@
  "name": "rb_resize_bmap_cut_b1",
  "props": ["C16"],
  "level": "B(1)",
- "tier": "wip",
+ "tier": "obs",
  "harness": "h_rb_resize",
  "defines": ["EXT2_CUSTOM_MEMORY_ROUTINES", "RB_N=1", "RB_NEW=0", "RB_BITS=16", "RB_SCEN=3"],
  "unwind": 9,
